@@ -46,6 +46,7 @@ type dynWorld struct {
 	RootDoc string
 	Docs    map[string]string // remote documents by URI
 	Fanout  bool              // the root sends property A down chain A and property B down chain B in ONE call
+	Permuted bool            // chain B enters the same resources as chain A in another order
 	Detour  *dynRes           // a resource (declaring the dynamic anchor) that is entered and left again, through a failing anyOf branch, before the chain continues
 	DetAt   *dynRes           // the resource (or root) whose hop makes the detour
 }
@@ -149,6 +150,27 @@ func genDynWorldOpt(c *Ctx, fanout bool) *dynWorld {
 	}
 	w.Paths[0] = append(embeddedFirst(used[:cut]), w.Final)
 	w.Paths[1] = append(embeddedFirst(used[cut:]), w.Final)
+	if len(used) >= 2 && c.W(3) == 0 {
+		// Permuted chains: the SAME set of resources entered in two different orders
+		// (the outermost declarer differs although the set in scope is the same).
+		for _, r := range used {
+			if w.Final.Remote && !r.Remote {
+				r.Remote, r.IDText = true, ""
+				r.URI = fmt.Sprintf("http://d.test/s/q%d.json", r.Idx)
+			}
+		}
+		a := embeddedFirst(used)
+		b := make([]*dynRes, len(a))
+		for i, r := range a {
+			b[len(a)-1-i] = r
+		}
+		if len(a) > 2 && c.W(2) == 0 {
+			b = subsetShuffled(c, a, len(a))
+		}
+		w.Paths[0] = append(append([]*dynRes{}, a...), w.Final)
+		w.Paths[1] = append(b, w.Final)
+		w.Permuted = true
+	}
 	// Final $dynamicRef.
 	var anchored []*dynRes
 	for _, r := range append([]*dynRes{w.Root}, w.Res...) {
@@ -209,7 +231,16 @@ func genDynWorldOpt(c *Ctx, fanout bool) *dynWorld {
 	}
 	// Bodies.
 	hops := []string{"$ref", "$dynamicRef", "allOf", "anyOf", "oneOf", "if-then"}
-	build := func(r *dynRes, next *dynRes) {
+	pathCond := map[string]any{"properties": map[string]any{"p": map[string]any{"const": "A"}}, "required": []any{"p"}}
+	nextOn := func(r *dynRes, p int) *dynRes {
+		for i, x := range w.Paths[p] {
+			if x == r && i+1 < len(w.Paths[p]) {
+				return w.Paths[p][i+1]
+			}
+		}
+		return nil
+	}
+	build := func(r *dynRes) {
 		defs := map[string]any{"a": markerSchema(r)}
 		root := map[string]any{"$defs": defs}
 		if r.IDText != "" {
@@ -222,51 +253,61 @@ func genDynWorldOpt(c *Ctx, fanout bool) *dynWorld {
 				b["$anchor"] = "ent"
 			}
 			defs["entry"] = b
-			// the root itself must not be what accepts or rejects: make it irrelevant but non-empty
 			root["title"] = "root of " + r.Name + " (never evaluated)"
 		}
-		if next != nil {
+		nA, nB := nextOn(r, 0), nextOn(r, 1)
+		hop := func(dst map[string]any, next *dynRes) {
 			ref := hopRef(c, r, next)
-			r.Hop = pick(c, hops)
-			if strings.Contains(ref, "#") && r.Hop == "$dynamicRef" {
-				r.Hop = "$ref" // a $dynamicRef with a fragment would itself be a candidate for dynamic behaviour
+			h := pick(c, hops)
+			if strings.Contains(ref, "#") && h == "$dynamicRef" {
+				h = "$ref" // a $dynamicRef with a fragment would itself be a candidate for dynamic behaviour
 			}
-			switch r.Hop {
+			r.Hop += h + " "
+			switch h {
 			case "$ref":
-				b["$ref"] = ref
+				dst["$ref"] = ref
 			case "$dynamicRef":
-				b["$dynamicRef"] = ref
+				dst["$dynamicRef"] = ref
 			case "allOf", "anyOf", "oneOf":
-				b[r.Hop] = []any{map[string]any{"$ref": ref}}
+				dst[h] = []any{map[string]any{"$ref": ref}}
 			case "if-then":
-				b["if"] = map[string]any{}
-				b["then"] = map[string]any{"$ref": ref}
+				dst["if"] = map[string]any{}
+				dst["then"] = map[string]any{"$ref": ref}
 			}
+		}
+		var real map[string]any // what performs the real hop (may be wrapped by a detour)
+		switch {
+		case r == w.Final || (nA == nil && nB == nil):
+		case nA != nil && nB != nil && nA != nB:
+			// the successor depends on the chain: decided by the instance's p
+			th, el := map[string]any{}, map[string]any{}
+			hop(th, nA)
+			hop(el, nB)
+			real = map[string]any{"if": pathCond, "then": th, "else": el}
+			r.Hop = "by-chain: " + r.Hop
+		default:
+			n := nA
+			if n == nil {
+				n = nB
+			}
+			real = map[string]any{}
+			hop(real, n)
+		}
+		if real != nil {
 			if r == w.DetAt {
-				// enter the detour resource first (it always fails), then take the real hop
-				for _, k := range []string{"$ref", "$dynamicRef", "allOf", "anyOf", "oneOf", "if", "then"} {
-					delete(b, k)
+				r.Hop = "anyOf-detour " + r.Hop
+				b["anyOf"] = []any{map[string]any{"$ref": refTo(c, r, w.Detour)}, real}
+			} else {
+				for k, v := range real {
+					b[k] = v
 				}
-				r.Hop = "anyOf-detour"
-				b["anyOf"] = []any{map[string]any{"$ref": refTo(c, r, w.Detour)}, map[string]any{"$ref": ref}}
 			}
 		}
 		r.Body = root
 	}
-	for p := 0; p < 2; p++ {
-		for i, r := range w.Paths[p] {
-			if r == w.Final {
-				continue
-			}
-			build(r, w.Paths[p][i+1])
-		}
-	}
 	for _, r := range w.Res {
-		if r.Body == nil && r != w.Final {
-			build(r, nil) // off-path resource
-		}
+		build(r)
 	}
-	build(w.Final, nil)
 	if w.Final.Entry != "" {
 		w.Final.Body["$defs"].(map[string]any)["entry"].(map[string]any)["$dynamicRef"] = w.RefText
 	} else {
@@ -386,10 +427,10 @@ func (w *dynWorld) history(c *Ctx) []dynCall {
 			case 1:
 				inst[key] = pick(c, []any{"str", 5.0, nil})
 			case 2, 3:
-				inst[key] = map[string]any{"t": exp}
+				inst[key] = map[string]any{"p": key, "t": exp}
 			default:
 				m := pick(c, markers)
-				inst[key] = map[string]any{"t": m}
+				inst[key] = map[string]any{"p": key, "t": m}
 				if m != exp {
 					valid = false
 				}
@@ -432,7 +473,7 @@ func (w *dynWorld) describe() map[string]any {
 		docs[k] = json.RawMessage(v)
 	}
 	return map[string]any{"root": json.RawMessage(w.RootDoc), "remote_documents": docs, "chainA": paths[0], "chainB": paths[1],
-		"root_anchor": w.Root.Anchor, "fan_out": w.Fanout, "final_dynamicRef": w.RefText, "form": w.RefForm, "static_target": w.Static.Name, "acts_dynamically": w.Dynamic,
+		"root_anchor": w.Root.Anchor, "fan_out": w.Fanout, "permuted_chains": w.Permuted, "final_dynamicRef": w.RefText, "form": w.RefForm, "static_target": w.Static.Name, "acts_dynamically": w.Dynamic,
 		"expectedA": w.expected(0), "expectedB": w.expected(1), "detour_at": func() string {
 			if w.DetAt == nil {
 				return ""
@@ -515,6 +556,12 @@ func driveC06(c *Ctx) {
 	}
 	if w.Detour != nil {
 		c.Probe("detour-through-failing-branch")
+	}
+	if w.Permuted {
+		c.Probe("permuted-chains")
+		if w.Dynamic && w.expected(0) != w.expected(1) {
+			c.Probe("permuted-chains-disagree-on-target")
+		}
 	}
 	for _, r := range w.Res {
 		if r.Entry != "" && (contains(w.Paths[0], r) || contains(w.Paths[1], r)) {
